@@ -225,6 +225,12 @@ pub enum End {
     Drop,
     Count,
     Forget,
+    /// `Iterator::last()`
+    Last,
+    /// `Iterator::fold` collecting the remaining items in order
+    Fold,
+    /// `DoubleEndedIterator::rfold` collecting the remaining items from the back
+    RFold,
 }
 /// `k` steps of `walk` (next / next_back / alternating / nth / nth_back), observing len() and size_hint()
 /// before every step and after the last, then `end` (drop, count(), mem::forget).
@@ -253,6 +259,9 @@ impl Script {
             "Drop" => End::Drop,
             "Count" => End::Count,
             "Forget" => End::Forget,
+            "Last" => End::Last,
+            "Fold" => End::Fold,
+            "RFold" => End::RFold,
             _ => return None,
         };
         Some(Script { walk, k: v["k"].as_u64()? as u8, end })
@@ -341,6 +350,17 @@ where
         End::Drop => drop(it),
         End::Count => tr.push(Tok::Count(it.count())),
         End::Forget => core::mem::forget(it),
+        End::Last => {
+            let l = it.last();
+            tr.push(Tok::Ret(l.map(|x| f(x, 250))));
+        }
+        End::Fold | End::RFold => {
+            let items = if sc.end == End::Fold { it.fold(vec![], |mut v, x| { v.push(x); v }) } else { it.rfold(vec![], |mut v, x| { v.push(x); v }) };
+            tr.push(Tok::Count(items.len()));
+            for (i, x) in items.into_iter().enumerate() {
+                tr.push(Tok::Item(Some(f(x, 100 + i))));
+            }
+        }
     }
 }
 
